@@ -61,7 +61,9 @@ impl NodeSession {
                 return Err(DriverError(format!("missing driver file {}", p.display())));
             }
         }
-        let stderr_path = vcore::scratch_base().join(format!("node-stderr-{}.log", std::process::id()));
+        static SESSIONS: std::sync::atomic::AtomicU64 = std::sync::atomic::AtomicU64::new(0);
+        let k = SESSIONS.fetch_add(1, std::sync::atomic::Ordering::SeqCst);
+        let stderr_path = vcore::scratch_base().join(format!("node-stderr-{}-{k}.log", std::process::id()));
         let stderr_file = std::fs::File::create(&stderr_path).map_err(|e| DriverError(format!("stderr file: {e}")))?;
         let mut child = Command::new(&node)
             .arg("--disable-warning=ExperimentalWarning")
